@@ -264,7 +264,7 @@ pub fn run_queries<R: BufRead + Seek>(
     st: &mut Stats,
 ) -> Vec<Viol> {
     let mut viols: Vec<Viol> = Vec::new();
-    let mut push = |v: Viol, viols: &mut Vec<Viol>| {
+    let push = |v: Viol, viols: &mut Vec<Viol>| {
         if !viols.iter().any(|x| x.0 == v.0) {
             viols.push(v);
         }
